@@ -127,7 +127,10 @@ OpMenu ==
         [op |-> "seq", first |-> [op |-> "filter", p |-> Bin("gt", A, K(0))], second |-> [op |-> "filter", p |-> Bin("lt", B, K(2))]],
         [op |-> "seq", first |-> [op |-> "filter", p |-> Bin("ge", R, K(1))], second |-> [op |-> "series", x |-> Bin("add", A, B)]],
         [op |-> "seq", first |-> [op |-> "assign", name |-> "c", x |-> Bin("add", A, R)], second |-> [op |-> "filter", p |-> Bin("gt", Col("c"), K(1))]],
-        [op |-> "seq", first |-> [op |-> "head", n |-> 3, np |-> 0 - 1], second |-> [op |-> "assign", name |-> "a", x |-> FillNa(A, 0)]] >>
+        [op |-> "seq", first |-> [op |-> "head", n |-> 3, np |-> 0 - 1], second |-> [op |-> "assign", name |-> "a", x |-> FillNa(A, 0)]],
+        [op |-> "seq", first |-> [op |-> "seq", first |-> [op |-> "assign", name |-> "c", x |-> Bin("add", A, K(1))],
+                                                second |-> [op |-> "assign", name |-> "d", x |-> Bin("mul", R, K(2))]],
+                       second |-> [op |-> "assign", name |-> "c", x |-> Bin("sub", R, K(1))]] >>
   \o << [op |-> "rename", ren |-> << <<"a", "x">> >>], [op |-> "rename", ren |-> << <<"a", "x">>, <<"b", "y">> >>],
         [op |-> "rename", ren |-> << <<"a", "b">>, <<"b", "a">> >>], [op |-> "rename", ren |-> << <<"zz", "x">> >>] >>
   \o [j \in 1..5 |-> [op |-> "head", n |-> <<0, 1, 2, 4, 7>>[j], np |-> 0 - 1]]
